@@ -885,7 +885,8 @@ Lemma end_block_reqs c s dt :
   (forall rid q, get rid (reqs s) = Some q ->
      match get rid (reqs s') with Some q' => q' = q | None => q_active q = false \/ q_exp q = height s end)
   /\ (forall rid q', get rid (reqs s') = Some q' -> get rid (reqs s) = None -> newreq (height s) rid q' /\ height s < q_exp q')
-  /\ (forall rid q', get rid (reqs s') = Some q' -> q_active q' = true -> height s < q_exp q').
+  /\ (forall rid q', get rid (reqs s') = Some q' -> q_active q' = true -> height s < q_exp q')
+  /\ height s' = height s + 1.
 Proof.
   intros Hq Hb Hl Hold. unfold end_block. cbv zeta.
   set (s1 := fold_left (expired_batch_handler c) _ s).
@@ -946,10 +947,10 @@ Proof.
     - split; [|reflexivity]. split; [split; [exact Q1|split; [exact B1|exact L1s]]|]. split; [reflexivity|intros; left; assumption].
     - intros id Hin. apply due_in in Hin. exact Hin. }
   destruct H2 as (((Q2 & B2 & L2) & Hc2 & Hd2) & Hh2).
-  cbn [reqs with_iidx with_time with_height].
+  cbn [reqs height with_iidx with_time with_height].
   assert (Old : forall rid, has rid (reqs s) = true -> get rid (reqs s2) = get rid (reqs s1)).
   { intros rid Hh. apply Hc2. specialize (Hold rid Hh). lia. }
-  split; [|split].
+  split; [|split; [|split; [|lia]]].
   - intros rid q Hg. assert (Hh : has rid (reqs s) = true) by (unfold has; rewrite Hg; reflexivity).
     rewrite (Old rid Hh). destruct (get rid (reqs s1)) as [q'|] eqn:E1.
     + pose proof (Ha1 rid q' E1) as E2. congruence.
@@ -959,4 +960,217 @@ Proof.
     + split; [exact Hnew|]. destruct Hnew as (_ & Ha & _).
       pose proof (l_exp _ _ L2 rid q' Hg Ha) as Hm. destruct (l_mark _ _ L2 _ _ Hm) as (_ & Hlt). cbv beta iota in Hlt. lia.
   - intros rid q' Hg Ha. pose proof (l_exp _ _ L2 rid q' Hg Ha) as Hm. destruct (l_mark _ _ L2 _ _ Hm) as (_ & Hlt). cbv beta iota in Hlt. lia.
+Qed.
+
+(** one step of the model and the stored requests, when no service is served by a module *)
+Definition good_step (st : step) : Prop := match st with EndBlock dt => 0 <= dt | _ => True end.
+
+Definition RQ (c : config) (s : state) (st : step) (t : state) : Prop :=
+  (forall rid q, get rid (reqs s) = Some q ->
+     match get rid (reqs t) with
+     | Some q' => q' = q \/ (q_active q = true /\ q_active q' = false /\ q_resp q' <> 0
+                             /\ (exists txh kind, st = Tx txh (MRespond rid (q_prov q) kind))
+                             /\ res_code (exec_step c s st) = 0 /\ height s <= q_exp q)
+     | None => is_endblock st = true /\ (q_active q = false \/ q_exp q = height s)
+     end)
+  /\ (forall rid q', get rid (reqs t) = Some q' -> get rid (reqs s) = None ->
+        is_endblock st = true /\ newreq (height s) rid q' /\ height s < q_exp q')
+  /\ (is_endblock st = true -> forall rid q', get rid (reqs t) = Some q' -> q_active q' = true -> height s < q_exp q')
+  /\ (forall txh rid prov kind, st = Tx txh (MRespond rid prov kind) -> res_code (exec_step c s st) = 0 ->
+        exists q q', get rid (reqs s) = Some q /\ get rid (reqs t) = Some q' /\ q_active q = true /\ q_prov q = prov
+                     /\ q_active q' = false /\ q_resp q' <> 0)
+  /\ height t = (if is_endblock st then height s + 1 else height s).
+
+Lemma RQ_same c s st t :
+  reqs t = reqs s /\ height t = height s -> is_endblock st = false ->
+  (forall txh rid prov kind, st = Tx txh (MRespond rid prov kind) -> res_code (exec_step c s st) <> 0) -> RQ c s st t.
+Proof.
+  intros (R & Hh) Eb Nr. unfold RQ. rewrite R. split; [|split; [|split; [|split]]].
+  - intros rid q Hg. rewrite Hg. left. reflexivity.
+  - intros rid q' A B. congruence.
+  - intros E. congruence.
+  - intros txh rid prov kind E Hc. exfalso. exact (Nr _ _ _ _ E Hc).
+  - rewrite Eb. exact Hh.
+Qed.
+
+Lemma req_step c s st :
+  c_msvc c < 0 -> QInv s -> BatchInv s -> LInv false s ->
+  (forall rid, has rid (reqs s) = true -> rid_h rid < height s) -> good_step st ->
+  RQ c s st (apply c s st).
+Proof.
+  intros Hm Hq Hb Hl Hold Hgood.
+  assert (Plain : forall txh m, (match m with MRespond _ _ _ => False | _ => True end) -> RQ c s (Tx txh m) (apply c s (Tx txh m))).
+  { intros txh m Hnr. apply RQ_same; [|reflexivity|intros ? ? ? ? E; inversion E; subst; contradiction].
+    unfold apply. cbn [exec_step]. rewrite (exec_msg_plain_eq _ _ _ _ Hm).
+    destruct (exec_msg_plain c s txh m) as [s'| |] eqn:E; try (split; reflexivity).
+    pose proof (exec_msg_same _ _ _ _ _ E) as Hs. destruct m; try contradiction; exact (conj (proj1 Hs) (proj2 (proj2 Hs))). }
+  destruct st as [txh m|dt|d r|f t d a|txh svc ps cn ca tmo rp fq tl st0 thr|id cn|id cn|id cn|svc p dd da pr qos ow].
+  - destruct m; try (apply Plain; exact I).
+    (* a response *)
+    unfold apply. cbn [exec_step]. rewrite (exec_msg_plain_eq _ _ _ _ Hm). cbn [exec_msg_plain].
+    destruct (respond c s rid prov kind) as [s'| |] eqn:E.
+    2,3: (apply RQ_same; [split; reflexivity|reflexivity|]; intros ? ? ? ? E0; cbn [exec_step]; rewrite (exec_msg_plain_eq _ _ _ _ Hm); cbn [exec_msg_plain]; rewrite E; discriminate).
+    destruct (respond_ok_lemma c s rid prov kind s' E) as (q & Hg & Hp & Ha & (q' & Hg' & Ha' & Hr' & _) & Hoth & _).
+    assert (Hc : res_code (exec_step c s (Tx txh (MRespond rid prov kind))) = 0).
+    { cbn [exec_step]. rewrite (exec_msg_plain_eq _ _ _ _ Hm). cbn [exec_msg_plain]. rewrite E. reflexivity. }
+    assert (Hexp : height s <= q_exp q).
+    { pose proof (l_exp _ _ Hl rid q Hg Ha) as Hmk. destruct (l_mark _ _ Hl _ _ Hmk) as (_ & Hh). exact Hh. }
+    assert (Hhs : height s' = height s) by (destruct (respond_struct _ _ _ _ _ _ E) as (? & ? & _ & _ & _ & _ & _ & Hh); exact Hh).
+    unfold RQ. split; [|split; [|split; [|split; [|exact Hhs]]]].
+    + intros rid0 q0 Hg0. destruct (eq_dec rid0 rid) as [->|Hne].
+      * rewrite Hg'. right. rewrite Hg in Hg0. inversion Hg0; subst q0. split; [exact Ha|]. split; [exact Ha'|]. split; [exact Hr'|].
+        split; [exists txh, kind; rewrite Hp; reflexivity|]. split; [exact Hc|exact Hexp].
+      * rewrite (Hoth rid0 Hne), Hg0. left. reflexivity.
+    + intros rid0 q0' A B. exfalso. destruct (eq_dec rid0 rid) as [->|Hne]; [congruence|]. rewrite (Hoth rid0 Hne) in A. congruence.
+    + intros Eb. discriminate Eb.
+    + intros txh0 rid0 prov0 kind0 E0 _. inversion E0; subst. exists q, q'. repeat split; assumption.
+  - (* the end blocker *)
+    simpl in Hgood. unfold apply. cbn [exec_step]. destruct (0 <=? dt) eqn:Ed; [|apply Z.leb_gt in Ed; lia].
+    destruct (end_block_reqs c s dt Hq Hb Hl Hold) as (A & B & C & D). cbv zeta in A, B, C, D.
+    unfold RQ. split; [|split; [|split; [|split; [|exact D]]]].
+    + intros rid q Hg. specialize (A rid q Hg). destruct (get rid (reqs (end_block c s dt))); [left; exact A|split; [reflexivity|exact A]].
+    + intros rid q' Hg Hn. destruct (B rid q' Hg Hn) as (B1 & B2). split; [reflexivity|]. split; assumption.
+    + intros _. exact C.
+    + intros ? ? ? ? E0. discriminate E0.
+  - apply RQ_same; [split; reflexivity|reflexivity|intros; discriminate].
+  - apply RQ_same; [|reflexivity|intros; discriminate]. unfold apply. cbn [exec_step].
+    destruct ((0 <=? f) && (0 <=? t)); [|split; reflexivity]. destruct (send _ _ _ _ _); split; reflexivity.
+  - apply RQ_same; [|reflexivity|intros; discriminate]. unfold apply. cbn [exec_step].
+    destruct (create_context _ _ _ _ _ _ _ _ _ _ _ _ _ _ _ _) as [[s1 id]|] eqn:E1; [|split; reflexivity].
+    destruct (create_context_same _ _ _ _ _ _ _ _ _ _ _ _ _ _ _ _ _ _ E1) as (A & _ & B). exact (conj A B).
+  - apply RQ_same; [|reflexivity|intros; discriminate]. unfold apply. cbn [exec_step].
+    destruct (k_pause s id cn) as [s'| |] eqn:E; try (split; reflexivity). unfold k_pause in E. repeat dmn E; inversion E; subst; split; reflexivity.
+  - apply RQ_same; [|reflexivity|intros; discriminate]. unfold apply. cbn [exec_step].
+    destruct (k_start s id cn) as [s'| |] eqn:E; try (split; reflexivity). unfold k_start in E. repeat dmn E; inversion E; subst; split; reflexivity.
+  - apply RQ_same; [|reflexivity|intros; discriminate]. unfold apply. cbn [exec_step].
+    destruct (k_kill s id cn) as [s'| |] eqn:E; try (split; reflexivity). unfold k_kill in E. repeat dmn E; inversion E; subst; split; reflexivity.
+  - apply RQ_same; [|reflexivity|intros; discriminate]. unfold apply. cbn [exec_step].
+    destruct (bind c s svc p dd da pr qos true ow) as [s'| |] eqn:E; try (split; reflexivity). unfold bind in E. repeat dmn E; inversion E; subst; split; reflexivity.
+Qed.
+
+Lemma has_map_val {K V T} `{EqDec K} (f : V -> T) (k : K) (m : amap K V) :
+  has k (map (fun e => (fst e, f (snd e))) m) = has k m.
+Proof. unfold has. rewrite (get_map_val f). destruct (get k m); reflexivity. Qed.
+
+Lemma in_obs_reqs (m : amap reqid request) e : NoDup (keys m) -> In e (map (fun e => (fst e, req_tuple (snd e))) m) ->
+  exists q, get (fst e) m = Some q /\ snd e = req_tuple q.
+Proof.
+  intros Hnd Hin. apply in_map_iff in Hin. destruct Hin as ([rid q] & <- & Hin). exists q. split; [|reflexivity].
+  apply In_get_NoDup; assumption.
+Qed.
+
+Lemma c08_clause1_obs c s st univ seen fired tr sc pcode pnc pcb :
+  RQ c s st (apply c s st) -> NoDup (keys (reqs s)) -> NoDup (keys (reqs (apply c s st))) ->
+  (forall rid, In rid seen -> rid_h rid < height s) ->
+  holds_C08 seen fired tr sc (obs_of univ pcode pnc pcb s) st (obs_step univ c s st) <> 1.
+Proof.
+  intros (R1 & R2 & R3 & R4 & _) K K' Hseen E.
+  apply first_fail_in in E; [|lia]. unfold holds_C08 in E; cbv zeta in E.
+  unfold obs_step in E. cbn [obs_of o_reqs o_code o_height] in E.
+  set (s' := apply c s st) in *.
+  split_seg E.
+  { (* the requests stored before *)
+    apply in_map_iff in E. destruct E as ([rid qt] & E & Hin). cbv beta iota in E. injection E as E.
+    destruct (in_obs_reqs _ _ K Hin) as (q & Hg & Eq). cbn [fst snd] in Hg, Eq. subst qt.
+    rewrite (get_map_val req_tuple) in E. specialize (R1 rid q Hg).
+    destruct (get rid (reqs s')) as [q'|]; cbn [option_map] in E.
+    - destruct R1 as [->|(Ha & Ha' & Hr' & (txh & kind & Est) & Hc & Hexp)].
+      + rewrite eqb_refl in E. destruct (r_active (req_tuple q)); discriminate E.
+      + cbn [req_tuple r_active r_resp r_prov r_exp] in E. rewrite Ha, Ha' in E.
+        destruct (q_resp q' =? 0) eqn:Er; [apply Z.eqb_eq in Er; contradiction|].
+        rewrite Est in E. rewrite eqb_refl, Z.eqb_refl in E. rewrite Est in Hc. rewrite Hc in E. cbn [Z.eqb andb] in E.
+        apply Z.leb_le in Hexp. rewrite Hexp in E. discriminate E.
+    - destruct R1 as (Eb & Hx). rewrite Eb in E. cbn [req_tuple r_active r_exp andb] in E.
+      destruct Hx as [Hx|Hx]; [rewrite Hx in E; discriminate E|]. rewrite Hx, Z.eqb_refl, orb_true_r in E. discriminate E. }
+  split_seg E.
+  { (* the requests created by the step *)
+    apply in_map_iff in E. destruct E as ([rid qt] & E & Hin). injection E as E.
+    unfold created_in in Hin. cbn [obs_of o_reqs] in Hin. apply filter_In in Hin. destruct Hin as (Hin & Hnew).
+    destruct (in_obs_reqs _ _ K' Hin) as (q' & Hg & Eq). cbn [fst snd] in Hg, Eq, Hnew. subst qt.
+    rewrite (has_map_val req_tuple) in Hnew. apply negb_true_iff in Hnew. unfold has in Hnew.
+    destruct (get rid (reqs s)) eqn:Eg; [discriminate|].
+    destruct (R2 rid q' Hg Eg) as (Eb & (Nh & Na & Nr & Nhh) & Nexp).
+    cbn [fst snd req_tuple r_active r_resp r_exp r_height] in E. rewrite Eb, Na, Nr, Nhh, !Z.eqb_refl in E.
+    apply Z.ltb_lt in Nexp. rewrite Nexp in E. cbn [andb orb Z.eqb] in E.
+    destruct (existsb (eqb rid) seen) eqn:Ex; [|discriminate E].
+    apply existsb_eqb_in in Ex. specialize (Hseen rid Ex). lia. }
+  split_seg E.
+  { (* after an end-block nothing active is at or past its expiry height *)
+    destruct (is_endblock st) eqn:Eb; [|contradiction E].
+    apply in_map_iff in E. destruct E as ([rid qt] & E & Hin). injection E as E.
+    destruct (in_obs_reqs _ _ K' Hin) as (q' & Hg & Eq). cbn [fst snd] in Hg, Eq, E. subst qt.
+    cbn [req_tuple r_active r_exp] in E. destruct (q_active q') eqn:Ea; [|discriminate E].
+    pose proof (R3 eq_refl rid q' Hg Ea) as Hlt. apply Z.ltb_lt in Hlt. rewrite Hlt in E. discriminate E. }
+  split_seg E.
+  { (* a successful response *)
+    destruct st as [txh m| | | | | | | |]; try contradiction E. destruct m; try contradiction E.
+    destruct (res_code (exec_step c s (Tx txh (MRespond rid prov kind))) =? 0) eqn:Ec; [|contradiction E].
+    apply Z.eqb_eq in Ec. destruct (R4 txh rid prov kind eq_refl Ec) as (q & q' & Hg & Hg' & Ha & Hp & Ha' & Hr').
+    destruct E as [E|[]]. injection E as E. rewrite !(get_map_val req_tuple), Hg, Hg' in E.
+    cbn [option_map req_tuple r_active r_prov r_resp] in E. rewrite Ha, Hp, Ha', Z.eqb_refl in E.
+    destruct (q_resp q' =? 0) eqn:Er; [apply Z.eqb_eq in Er; contradiction|]. discriminate E. }
+  not_here E.
+Qed.
+
+(** the checker's accumulator [seen] along the model's own trace *)
+Fixpoint model_seen (univ : list (Z * Z)) (c : config) (s : state) (seen : list reqid) (steps : list step) : list reqid :=
+  match steps with
+  | [] => seen
+  | st :: r => model_seen univ c (apply c s st)
+                 (seen ++ map fst (created_in (obs_of univ 0 None [] s) (obs_step univ c s st))) r
+  end.
+
+Definition J1 (s : state) (seen : list reqid) : Prop :=
+  SL s /\ (forall rid, has rid (reqs s) = true -> rid_h rid < height s) /\ (forall rid, In rid seen -> rid_h rid < height s).
+
+Lemma J1_step univ c s st seen :
+  c_msvc c < 0 -> fresh_ctx s st -> good_step st -> J1 s seen ->
+  RQ c s st (apply c s st)
+  /\ J1 (apply c s st) (seen ++ map fst (created_in (obs_of univ 0 None [] s) (obs_step univ c s st))).
+Proof.
+  intros Hm Hf Hg (((Hq & Hb) & Hl) & Hold & Hseen).
+  pose proof (req_step c s st Hm Hq Hb Hl Hold Hg) as R. split; [exact R|].
+  pose proof (SL_apply_m c s st Hf (conj (conj Hq Hb) Hl)) as S'. split; [exact S'|].
+  destruct R as (R1 & R2 & _ & _ & Hh). destruct S' as ((_ & Hb') & _).
+  assert (Hle : height s <= height (apply c s st)) by (rewrite Hh; destruct (is_endblock st); lia).
+  assert (New : forall rid q', get rid (reqs (apply c s st)) = Some q' -> rid_h rid < height (apply c s st)).
+  { intros rid q' Hg'. destruct (get rid (reqs s)) as [q|] eqn:Eg.
+    - assert (Hh0 : has rid (reqs s) = true) by (unfold has; rewrite Eg; reflexivity). specialize (Hold rid Hh0). lia.
+    - destruct (R2 rid q' Hg' Eg) as (Eb & (Nh & _) & _). rewrite Hh, Eb, Nh. lia. }
+  split.
+  - intros rid Hhas. unfold has in Hhas. destruct (get rid (reqs (apply c s st))) as [q'|] eqn:Eg; [|discriminate]. exact (New rid q' Eg).
+  - intros rid Hin. apply in_app_or in Hin. destruct Hin as [Hin|Hin]; [specialize (Hseen rid Hin); lia|].
+    apply in_map_iff in Hin. destruct Hin as ([rid0 qt] & <- & Hin). unfold created_in, obs_step in Hin. cbn [obs_of o_reqs] in Hin.
+    apply filter_In in Hin. destruct Hin as (Hin & _). destruct (in_obs_reqs _ _ (b_keys _ Hb') Hin) as (q' & Hg' & _). exact (New _ q' Hg').
+Qed.
+
+Lemma clause1_trace univ c : c_msvc c < 0 -> forall steps s seen,
+  fresh_history c s steps -> Forall good_step steps -> J1 s seen ->
+  forall pre st post, steps = pre ++ st :: post ->
+  forall fired tr sc pcode pnc pcb,
+    holds_C08 (model_seen univ c s seen pre) fired tr sc (obs_of univ pcode pnc pcb (run c s pre)) st (obs_step univ c (run c s pre) st) <> 1.
+Proof.
+  intros Hm. induction steps as [|st0 r IH]; intros s seen Hf Hg HJ pre st post E fired tr sc pcode pnc pcb.
+  - destruct pre; discriminate E.
+  - destruct Hf as (F1 & F2). inversion Hg as [|? ? G1 G2]; subst.
+    destruct (J1_step univ c s st0 seen Hm F1 G1 HJ) as (R & HJ').
+    destruct pre as [|st1 pre'].
+    + cbn [app] in E. injection E as <- _. cbn [run model_seen].
+      destruct HJ as (((_ & Hb) & _) & _ & Hseen). destruct HJ' as (((_ & Hb') & _) & _).
+      apply c08_clause1_obs; [exact R|exact (b_keys _ Hb)|exact (b_keys _ Hb')|exact Hseen].
+    + cbn [app] in E. injection E as <- E. cbn [run model_seen]. eapply (IH _ _ F2 G2 HJ' pre' st post E).
+Qed.
+
+Theorem model_passes_C08_clause_1_lemma :
+  forall c steps h0 t0 l0 univ,
+    c_msvc c < 0 -> NoDup (create_txhs steps) -> Forall good_step steps ->
+    forall pre st post, steps = pre ++ st :: post ->
+    forall fired tr sc pcode pnc pcb,
+      let s := run c (init h0 t0 l0) pre in
+      holds_C08 (model_seen univ c (init h0 t0 l0) [] pre) fired tr sc (obs_of univ pcode pnc pcb s) st (obs_step univ c s st) <> 1.
+Proof.
+  intros c steps h0 t0 l0 univ Hm Hnd Hg pre st post E fired tr sc pcode pnc pcb s. subst s.
+  apply (clause1_trace univ c Hm steps (init h0 t0 l0) []) with (post := post); try assumption.
+  - apply fresh_history_from_distinct_hashes_lemma. exact Hnd.
+  - split; [split; [apply SInv_init|apply LInv_init]|]. split; [intros rid H; discriminate H|intros rid []].
 Qed.
